@@ -42,10 +42,10 @@ func (e *Engine) inputScalar(name string, w uint8, kind string) *smt.Term {
 	st := e.st
 	for _, in := range st.inputs {
 		if in.Name == name {
-			if st.replaying && in.T != nil && in.T.W == w {
-				return in.T // the instruction is being re-executed after a fork
+			if in.T != nil && in.T.W == w {
+				return in.T // re-read of the same input (or re-execution after a fork)
 			}
-			e.unsupported("input name %q used twice on one path", name)
+			e.unsupported("input name %q used with two different types on one path", name)
 		}
 	}
 	v := smt.Var("in!"+sanitize(name), w)
